@@ -1,0 +1,196 @@
+//go:build verif
+
+// Contracts for the gowp verifier (/verif). Comment-only file: compiled only with -tags verif and
+// contributes no code either way.
+
+package chainntnfs
+
+//@ // ---- C14, per-call guards of the notifier (the history-level statement is not decided here):
+//@ // ---- heights move by exactly one, a confirmation is handed out only at or after the height
+//@ // ---- BlockHeight+NumConfs-1 on the notifier's chain, queued under exactly that height, reorged
+//@ // ---- entries are cleared for exactly the disconnected height, hints are written at the
+//@ // ---- notifier's height and only for requests without details.
+//@
+//@ func (n *TxNotifier) ConnectTip
+//@   props C14
+//@   loop * havoc
+//@   site store TxNotifier.currentHeight: assert blockHeight == wrap(old(n.currentHeight) + 1, 32) && value == blockHeight
+//@   site store TxNotifier.reorgDepth: assert value == 0
+//@   site call updateHints: assert arg(height) == blockHeight && n.currentHeight == blockHeight
+//@   ensures blockHeight != wrap(old(n.currentHeight) + 1, 32) ==> result != nil
+//@   // requests are retired exactly reorgSafetyLimit blocks below the new tip (the limit is read once, before loop 1)
+//@   loop 1 entry matureBlockHeight == blockHeight - n.reorgSafetyLimit && blockHeight >= n.reorgSafetyLimit
+//@   site call delete nth 1: assert arg(0) == n.confsByInitialHeight && arg(1) == matureBlockHeight
+//@   site call delete nth 3: assert arg(0) == n.spendsByHeight && arg(1) == matureBlockHeight
+//@   site lookup confsByInitialHeight: assert arg(key) == matureBlockHeight
+//@   site lookup spendsByHeight: assert arg(key) == matureBlockHeight
+//@
+//@ func (n *TxNotifier) DisconnectTip
+//@   props C14
+//@   loop * havoc
+//@   site store TxNotifier.currentHeight: assert blockHeight == old(n.currentHeight) && value == wrap(blockHeight - 1, 32)
+//@   site store TxNotifier.reorgDepth: assert value == wrap(old(n.reorgDepth) + 1, 32)
+//@   site call updateHints: assert arg(height) == blockHeight
+//@   site store confNtfnSet.details: assert initialHeight == blockHeight && value == nil
+//@   site call dispatchConfReorg: assert initialHeight == blockHeight && arg(heightDisconnected) == blockHeight
+//@   site store spendNtfnSet.details: assert value == nil
+//@   ensures blockHeight != old(n.currentHeight) ==> result != nil
+//@   site call delete nth 0: assert arg(0) == n.confsByInitialHeight && arg(1) == blockHeight
+//@   site call delete nth 1: assert arg(0) == n.spendsByHeight && arg(1) == blockHeight
+//@   site call dispatchSpendReorg: assert spendSet.details == nil
+//@   site lookup spendsByHeight: assert arg(key) == blockHeight
+//@
+//@ // object invariant of a registration, established by newConfNtfn and assumed where a registration
+//@ // is read back from the notifier's maps (A-inv): 1 <= NumConfirmations <= reorgSafetyLimit
+//@ func (n *TxNotifier) newConfNtfn
+//@   props C14
+//@   ensures result1 == nil ==> result0 != nil && result0.NumConfirmations == numConfs && 1 <= numConfs && numConfs <= n.reorgSafetyLimit &&
+//@           result0.HeightHint == heightHint && heightHint != 0 && !result0.dispatched && result0.numConfsLeft == numConfs
+//@   ensures (numConfs == 0 || numConfs > n.reorgSafetyLimit || heightHint == 0 || len(pkScript) == 0) ==> result1 != nil
+//@
+//@ func (n *TxNotifier) dispatchConfDetails
+//@   props C14
+//@   requires details != nil ==> 1 <= ntfn.NumConfirmations && details.BlockHeight + ntfn.NumConfirmations <= 4294967295 &&
+//@            details.BlockHeight + n.reorgSafetyLimit <= 4294967295
+//@   site store ConfNtfn.dispatched: assert details != nil && value && !old(ntfn.dispatched) &&
+//@        details.BlockHeight + ntfn.NumConfirmations - 1 <= n.currentHeight
+//@   site mapupdate ntfnsByConfirmHeight: assert arg(key) == details.BlockHeight + ntfn.NumConfirmations - 1 && arg(key) > n.currentHeight
+//@   site mapupdate ntfnSet: assert arg(key) == ntfn && details.BlockHeight + ntfn.NumConfirmations - 1 > n.currentHeight && !old(ntfn.dispatched)
+//@   site mapupdate confsByInitialHeight: assert arg(key) == details.BlockHeight
+//@   site mapupdate txSet: assert arg(key) == ntfn.ConfRequest && details.BlockHeight + n.reorgSafetyLimit > n.currentHeight
+//@   site call notifyNumConfsLeft nth 0: assert arg(ntfn) == ntfn && arg(info).NumConfsLeft == 0 && arg(info).BlockHeight == details.BlockHeight
+//@   site call notifyNumConfsLeft nth 1: assert arg(ntfn) == ntfn && arg(info).BlockHeight == details.BlockHeight &&
+//@        arg(info).NumConfsLeft == details.BlockHeight + ntfn.NumConfirmations - 1 - n.currentHeight
+//@   nowrap-arith
+//@
+//@ func (n *TxNotifier) handleConfDetailsAtTip
+//@   props C14
+//@   loop * havoc
+//@   site store confNtfnSet.details: assert details == nil && value == entry(details)
+//@   site mapupdate ntfnsByConfirmHeight: assert arg(key) == wrap(details.BlockHeight + ntfn.NumConfirmations - 1, 32)
+//@   site mapupdate ntfnSet: assert arg(key) == ntfn
+//@   site mapupdate confsByInitialHeight: assert arg(key) == details.BlockHeight
+//@   site mapupdate txSet: assert arg(key) == confRequest
+//@
+//@ func (n *TxNotifier) unconfirmedRequests
+//@   props C14
+//@   loop * havoc
+//@   site call append: assert confNtfnSet.rescanStatus == rescanComplete && confNtfnSet.details == nil
+//@
+//@ func (n *TxNotifier) unspentRequests
+//@   props C14
+//@   loop * havoc
+//@   site call append: assert spendNtfnSet.rescanStatus == rescanComplete && spendNtfnSet.details == nil
+//@
+//@ func (n *TxNotifier) updateHints
+//@   props C14
+//@   loop * havoc
+//@   site call CommitConfirmHint: assert arg(1) == n.currentHeight
+//@   site call CommitSpendHint: assert arg(1) == n.currentHeight
+//@   site call append nth 0: assert arg(0) == confRequests && called(unconfirmedRequests)
+//@   site call append nth 1: assert arg(0) == spendRequests && called(unspentRequests)
+//@   site lookup confsByInitialHeight: assert arg(key) == height
+//@   site lookup spendsByHeight: assert arg(key) == height
+//@
+//@ // ---- hand-outs: what may be put on a client's channels, and when
+//@ func (n *TxNotifier) dispatchConfReorg
+//@   props C14
+//@   site send NegativeConf: assert value == swrap(n.reorgDepth, 32)
+//@   site store ConfNtfn.dispatched: assert old(ntfn.dispatched) && !value
+//@   site call delete: assert !ntfn.dispatched && arg(1) == ntfn && arg(0) == ntfnSet
+//@   site lookup ntfnsByConfirmHeight: assert !ntfn.dispatched && arg(key) == wrap(heightDisconnected + ntfn.NumConfirmations - 1, 32)
+//@
+//@ func (n *TxNotifier) dispatchSpendReorg
+//@   props C14
+//@   site send Reorg: assert ntfn.dispatched
+//@   site store SpendNtfn.dispatched: assert old(ntfn.dispatched) && !value
+//@   ensures !old(ntfn.dispatched) ==> result == nil && !ntfn.dispatched
+//@
+//@ func (n *TxNotifier) dispatchSpendDetails
+//@   props C14
+//@   site send Spend: assert details != nil && !ntfn.dispatched && value == details
+//@   site store SpendNtfn.dispatched: assert details != nil && !old(ntfn.dispatched) && value
+//@   site mapupdate spendsByHeight: assert arg(key) == wrap(details.SpendingHeight, 32)
+//@   site mapupdate txSet: assert arg(key) == ntfn.SpendRequest &&
+//@        wrap(wrap(details.SpendingHeight, 32) + n.reorgSafetyLimit, 32) > n.currentHeight
+//@
+//@ func (n *TxNotifier) notifyNumConfsLeft
+//@   props C14
+//@   site send Updates: assert value == info && info.NumConfsLeft < old(ntfn.numConfsLeft) && ntfn.numConfsLeft == info.NumConfsLeft
+//@   ensures info.NumConfsLeft >= old(ntfn.numConfsLeft) ==> result == nil && ntfn.numConfsLeft == old(ntfn.numConfsLeft)
+//@
+//@ func (n *TxNotifier) handleSpendDetailsAtTip
+//@   props C14
+//@   loop * havoc
+//@   site store spendNtfnSet.details: assert value == entry(details)
+//@   site store spendNtfnSet.rescanStatus: assert value == rescanComplete
+//@   site mapupdate spendsByHeight: assert arg(key) == wrap(details.SpendingHeight, 32)
+//@   site mapupdate opSet: assert arg(key) == spendRequest
+//@
+//@ func (n *TxNotifier) updateSpendDetails
+//@   props C14
+//@   loop * havoc
+//@   site call CommitSpendHint nth 0: assert details == nil && arg(1) == n.currentHeight
+//@   site call CommitSpendHint nth 1: assert details != nil && arg(1) == wrap(details.SpendingHeight, 32) && arg(1) <= n.currentHeight
+//@   site store spendNtfnSet.details: assert details == nil && value == entry(details) && entry(details) != nil &&
+//@        wrap(entry(details).SpendingHeight, 32) <= n.currentHeight && ret(HasSpenderWitness)
+//@   site call dispatchSpendDetails: assert arg(details) == entry(details)
+//@
+//@ func (n *TxNotifier) UpdateConfDetails
+//@   props C14
+//@   loop 0 invariant details.BlockHeight == old(details.BlockHeight) && n.currentHeight == old(n.currentHeight) &&
+//@        n.reorgSafetyLimit == old(n.reorgSafetyLimit) && details.BlockHash == old(details.BlockHash) &&
+//@        details.TxIndex == old(details.TxIndex) && details.Tx == old(details.Tx)
+//@   site call CommitConfirmHint nth 0: assert details == nil && arg(1) == n.currentHeight
+//@   site call CommitConfirmHint nth 1: assert details != nil && arg(1) == details.BlockHeight && arg(1) <= n.currentHeight
+//@   site store confNtfnSet.details: assert details == nil && value == entry(details) && entry(details) != nil &&
+//@        entry(details).BlockHeight <= n.currentHeight
+//@   site call dispatchConfDetails: domain 1 <= arg(ntfn).NumConfirmations && arg(ntfn).NumConfirmations <= n.reorgSafetyLimit &&
+//@        n.currentHeight + n.reorgSafetyLimit <= 4294967295 && arg(ntfn) != nil
+//@   site call dispatchConfDetails as same-details: assert arg(details).BlockHeight == entry(details).BlockHeight &&
+//@        arg(details).BlockHash == entry(details).BlockHash && arg(details).TxIndex == entry(details).TxIndex && arg(details).Tx == entry(details).Tx
+//@
+//@ func (n *TxNotifier) NotifyHeight
+//@   props C14
+//@   loop * havoc
+//@   site send Confirmed: assert !ntfn.dispatched && value.BlockHeight == confSet.details.BlockHeight &&
+//@        value.BlockHash == confSet.details.BlockHash && value.TxIndex == confSet.details.TxIndex && value.Tx == confSet.details.Tx
+//@   site store ConfNtfn.dispatched: assert value && !dispatched
+//@   site call notifyNumConfsLeft: assert arg(ntfn) == ntfn && arg(info).BlockHeight == confSet.details.BlockHeight &&
+//@        arg(info).NumConfsLeft == wrap(confSet.details.BlockHeight + ntfn.NumConfirmations - 1 - height, 32) &&
+//@        swrap(arg(info).NumConfsLeft, 32) >= 0
+//@   site call delete: assert arg(0) == n.ntfnsByConfirmHeight && arg(1) == height
+//@   site lookup ntfnsByConfirmHeight: assert arg(key) == height
+//@   site lookup spendsByHeight: assert arg(key) == height
+//@   site call dispatchSpendDetails: assert arg(ntfn) == ntfn && arg(details) == spendSet.details
+//@
+//@ // ---- registration: the rescan handed to the caller starts at the better of the caller's hint and
+//@ // ---- the cached hint and ends at the notifier's height; no rescan when the hint is above it
+//@ func (n *TxNotifier) RegisterConf
+//@   props C14
+//@   loop * havoc
+//@   site call newConfNtfn: assert arg(numConfs) == numConfs && arg(heightHint) == heightHint
+//@   site store HistoricalConfDispatch.StartHeight: assert value == startHeight && startHeight <= n.currentHeight &&
+//@        startHeight == ite(retn(QueryConfirmHint, 1) == nil && retn(QueryConfirmHint, 0) > heightHint, retn(QueryConfirmHint, 0), heightHint)
+//@   site store HistoricalConfDispatch.EndHeight: assert value == n.currentHeight
+//@   site store confNtfnSet.rescanStatus nth 0: assert value == rescanComplete && rescanStatus != rescanComplete && rescanStatus != rescanPending && startHeight > n.currentHeight
+//@   site store confNtfnSet.rescanStatus nth 1: assert value == rescanPending && rescanStatus != rescanComplete && rescanStatus != rescanPending && startHeight <= n.currentHeight
+//@   site call dispatchConfDetails: domain 1 <= arg(ntfn).NumConfirmations && arg(ntfn).NumConfirmations <= n.reorgSafetyLimit &&
+//@        n.currentHeight + n.reorgSafetyLimit <= 4294967295 && (arg(details) != nil ==> arg(details).BlockHeight <= n.currentHeight)
+//@   site call dispatchConfDetails as rescan-done: assert confSet.rescanStatus == rescanComplete
+//@
+//@ func (n *TxNotifier) newSpendNtfn
+//@   props C14
+//@   ensures result1 == nil ==> result0 != nil && result0.HeightHint == heightHint && heightHint != 0 && !result0.dispatched
+//@   ensures (heightHint == 0 || len(pkScript) == 0) ==> result1 != nil
+//@
+//@ func (n *TxNotifier) RegisterSpend
+//@   props C14
+//@   loop * havoc
+//@   site call newSpendNtfn: assert arg(heightHint) == heightHint
+//@   site store HistoricalSpendDispatch.StartHeight: assert value == startHeight && startHeight <= n.currentHeight &&
+//@        startHeight == ite(retn(QuerySpendHint, 1) == nil && retn(QuerySpendHint, 0) > heightHint, retn(QuerySpendHint, 0), heightHint)
+//@   site store HistoricalSpendDispatch.EndHeight: assert value == n.currentHeight
+//@   site store spendNtfnSet.rescanStatus nth 0: assert value == rescanComplete && rescanStatus != rescanComplete && rescanStatus != rescanPending && startHeight > n.currentHeight
+//@   site store spendNtfnSet.rescanStatus nth 1: assert value == rescanPending && rescanStatus != rescanComplete && rescanStatus != rescanPending && startHeight <= n.currentHeight
+//@   site call dispatchSpendDetails: assert arg(ntfn) == retn(newSpendNtfn, 0) && arg(details) == spendSet.details && spendSet.rescanStatus == rescanComplete
